@@ -200,7 +200,10 @@ class _DSFID3(ID3):
         if id3_location == 0:
             raise ID3NoHeaderError("File has no existing ID3 tag")
 
-        fileobj.seek(id3_location)
+        try:
+            fileobj.seek(id3_location)
+        except (OverflowError, ValueError):
+            raise error("Invalid metadata chunk offset")
 
     @convert_error(IOError, error)
     @loadfile(writable=True)
